@@ -168,7 +168,10 @@ func Diff(a, b string) (path, av, bv string, n int) {
 			y = "<absent>"
 		}
 		// most specific = deepest path; ties: first in snapshot order
-		d := 1000*strings.Count(k, "](") + strings.Count(k, ".") + strings.Count(k, "[")
+		d := 2000*strings.Count(k, "](") + 2*(strings.Count(k, ".")+strings.Count(k, "["))
+		if !strings.HasSuffix(k, ")") { // at equal depth a field is more telling than a method result
+			d++
+		}
 		if d > best {
 			best, path, av, bv = d, k, x, y
 		}
